@@ -36,13 +36,16 @@ package interpreter
 // evaluateExpr is verified to write nothing and (effect scan) to read only the
 // expression and st.ParsedVars, so its result is the spec function evalOf / evalErr.
 // data-structure invariant of programState (established by RunProgram / parseVars)
-//@ spec varsOk(st) = st != nil && st.ParsedVars != nil && forallstr(k, has(st.ParsedVars, k) ==> st.ParsedVars[k] != nil && (typeis(st.ParsedVars[k], Portion) ==> 0 <= rat(as(st.ParsedVars[k], Portion)) && rat(as(st.ParsedVars[k], Portion)) <= 1))
+// run-time values are of the six value types (never a pointer to one of them)
+//@ spec isValue(v) = typeis(v, String) || typeis(v, Asset) || typeis(v, AccountAddress) || typeis(v, Portion) || typeis(v, MonetaryInt) || typeis(v, Monetary)
+//@ spec varsOk(st) = st != nil && st.ParsedVars != nil && forallstr(k, has(st.ParsedVars, k) ==> isValue(st.ParsedVars[k]) && (typeis(st.ParsedVars[k], Portion) ==> 0 <= rat(as(st.ParsedVars[k], Portion)) && rat(as(st.ParsedVars[k], Portion)) <= 1))
 
 //@ func (*programState).evaluateExpr
 //@   functional
 //@   requires [wf] wf(expr)
 //@   requires [state] varsOk(st)
 //@   ensures [result-xor-err] {C12} (err == nil) != (result == nil)
+//@   ensures [value-kind] {C12} err == nil ==> isValue(result)
 //@   ensures [portion-nonneg] {C02,C06} err == nil && typeis(result, Portion) ==> rat(as(result, Portion)) >= 0
 //@   ensures [typed-error] {C12} err != nil ==> typeis(err, TypeError) || typeis(err, UnboundVariableErr) || typeis(err, MismatchedCurrencyError) || typeis(err, BadPortionParsingErr)
 //@   modifies nothing
@@ -272,6 +275,7 @@ package interpreter
 //@   ensures [distributes-all] {C03,C05} err == nil ==> sumMon(s.Receivers, len(s.Receivers)) == old(sumMon(s.Receivers, len(s.Receivers))) + val(amount)
 //@   ensures [prefix-kept] {C05} err == nil ==> len(s.Receivers) >= old(len(s.Receivers)) && forall(j, 0, old(len(s.Receivers)), s.Receivers[j] == old(s.Receivers[j]))
 //@   ensures [new-receivers] {C02,C05} err == nil ==> newReceiversOk(s, old(len(s.Receivers)), amount)
+//@   ensures [view-unchanged] {C09} forallstr(a, c, bal(s, a, c) == old(bal(s, a, c)))
 //@   ensures [state-ok] varsOk(s) && receiversOk(s)
 //@   ensures [amounts-untouched] {C05,C11} heapsame(bigint)
 //@   modifies s.Receivers
@@ -282,6 +286,7 @@ package interpreter
 //@   ensures [distributes-all] {C03,C05} err == nil ==> sumMon(s.Receivers, len(s.Receivers)) == old(sumMon(s.Receivers, len(s.Receivers))) + val(amount)
 //@   ensures [prefix-kept] {C05} err == nil ==> len(s.Receivers) >= old(len(s.Receivers)) && forall(j, 0, old(len(s.Receivers)), s.Receivers[j] == old(s.Receivers[j]))
 //@   ensures [new-receivers] {C02,C05} err == nil ==> newReceiversOk(s, old(len(s.Receivers)), amount)
+//@   ensures [view-unchanged] {C09} forallstr(a, c, bal(s, a, c) == old(bal(s, a, c)))
 //@   ensures [state-ok] varsOk(s) && receiversOk(s)
 //@   ensures [amounts-untouched] {C05,C11} heapsame(bigint)
 //@   modifies s.Receivers
@@ -314,6 +319,7 @@ package interpreter
 //@   ensures [asset] {C02} forall(k, 0, len(result), result[k].Asset == asset)
 //@   ensures [dest-not-kept] {C02,C05} forall(k, 0, len(result), result[k].Destination != KEPT_ADDR)
 //@   ensures [conservation] {C03,C05,C07} sumAmounts(result, len(result)) == old(sumMonNot(receivers, len(receivers), KEPT_ADDR))
+//@   ensures [conservation-upper] {C03} sumAmounts(result, len(result)) <= old(sumMon(receivers, len(receivers)))
 //@   ensures [amounts-owned] {C11} forall(k, 0, len(result), fresh(ref(result[k].Amount)))
 //@   ensures [inputs-untouched] {C03,C11} heapsame(bigint)
 //@   modifies elems(senders), elems(receivers)
@@ -323,6 +329,7 @@ package interpreter
 //@     invariant [postings-distinct] forall(k, 0, len(postings), forall(l, 0, len(postings), k != l ==> postings[k].Amount != postings[l].Amount))
 //@     invariant [postings-apart] forall(k, 0, len(postings), forall(j, 0, len(senders), postings[k].Amount != senders[j].Monetary) && forall(j, 0, len(receivers), postings[k].Amount != receivers[j].Monetary))
 //@     invariant [balance] {C03,C07} sumMon(senders, len(senders)) == sumMon(receivers, len(receivers))
+//@     invariant [posted-upper] {C03} sumAmounts(postings, len(postings)) + sumMon(receivers, len(receivers)) <= old(sumMon(receivers, len(receivers)))
 //@     invariant [posted] {C03,C07} sumAmounts(postings, len(postings)) + sumMonNot(receivers, len(receivers), KEPT_ADDR) == old(sumMonNot(receivers, len(receivers), KEPT_ADDR))
 
 // ---------------------------------------------------------------- statements
@@ -336,6 +343,7 @@ package interpreter
 //@   ensures [asset] {C02} forall(k, 0, len(result), result[k].Asset == st.CurrentAsset)
 //@   ensures [dest-not-kept] {C02,C05} forall(k, 0, len(result), result[k].Destination != KEPT_ADDR)
 //@   ensures [conservation] {C03,C05} sumAmounts(result, len(result)) == old(sumMonNot(st.Receivers, len(st.Receivers), KEPT_ADDR))
+//@   ensures [conservation-upper] {C03} sumAmounts(result, len(result)) <= old(sumMon(st.Receivers, len(st.Receivers)))
 //@   ensures [other-assets] {C09} forallstr(a, c, c != st.CurrentAsset ==> bal(st, a, c) == old(bal(st, a, c)))
 //@   ensures [cache-ok] cacheOk(st)
 //@   modifies heap(bigint), entries(st.CachedBalances), allentries("map[string]*math/big.Int"), elems(st.Senders), elems(st.Receivers)
@@ -368,5 +376,66 @@ package interpreter
 //@   ensures [negative-rejected] {C08,C12} !isAll && evalErr(st, as(sv, *parser.SentValueLiteral).Monetary) == nil && typeis(evalOf(st, as(sv, *parser.SentValueLiteral).Monetary), Monetary) && evalErr(st, saveStatement.Amount) == nil && typeis(evalOf(st, saveStatement.Amount), AccountAddress) && val(mon.Amount) < 0 ==> typeis(err, NegativeAmountErr)
 //@   ensures [error-atomic] {C08,C12} err != nil ==> forallstr(a, c, bal(st, a, c) == old(bal(st, a, c)))
 //@   ensures [queues-untouched] {C09} st.Senders == old(st.Senders) && st.Receivers == old(st.Receivers)
-//@   ensures [cache-ok] cacheOk(st)
+//@   ensures [error-no-postings] {C12} err != nil ==> len(result) == 0
+//@   ensures [cache-ok] cacheOk(st) && varsOk(st)
 //@   modifies heap(bigint), entries(st.CachedBalances), allentries("map[string]*math/big.Int")
+
+//@ func (*programState).runSendStatement
+//@   requires [wf] wf(statement)
+//@   requires [state] stateOk(st) && receiversOk(st) && len(st.Senders) == 0 && len(st.Receivers) == 0
+//@   let sv = statement.SentValue
+//@   let isAll = typeis(sv, *parser.SentValueAll)
+//@   let mon = as(evalOf(st, as(sv, *parser.SentValueLiteral).Monetary), Monetary)
+//@   let asset = ite(isAll, as(evalOf(st, as(sv, *parser.SentValueAll).Asset), Asset), mon.Asset)
+//@   ensures [right-asset] {C02} err == nil ==> forall(k, 0, len(result), result[k].Asset == asset)
+//@   ensures [amount-positive] {C02} err == nil ==> forall(k, 0, len(result), result[k].Amount != nil && val(result[k].Amount) > 0)
+//@   ensures [dest-not-kept] {C02,C05} err == nil ==> forall(k, 0, len(result), result[k].Destination != KEPT_ADDR)
+//@   ensures [sum-upper] {C03} err == nil && !isAll ==> sumAmounts(result, len(result)) <= val(mon.Amount)
+//@   ensures [zero-send] {C03} err == nil && !isAll && val(mon.Amount) == 0 ==> len(result) == 0
+//@   ensures [negative-rejected] {C02,C12} !isAll && evalErr(st, as(sv, *parser.SentValueLiteral).Monetary) == nil && typeis(evalOf(st, as(sv, *parser.SentValueLiteral).Monetary), Monetary) && val(mon.Amount) < 0 ==> typeis(err, NegativeAmountErr)
+//@   ensures [error-no-postings] {C03,C12} err != nil ==> len(result) == 0
+//@   ensures [state-ok] varsOk(st) && cacheOk(st)
+//@   modifies st.Senders, st.Receivers, st.CurrentAsset, heap(bigint), entries(st.CachedBalances), allentries("map[string]*math/big.Int"), allelems(Sender), allelems(Receiver)
+
+// transaction / account metadata: later values override earlier ones key by key, other keys stay
+//@ spec metaOk(st) = st != nil && st.TxMeta != nil && st.TxMeta != st.ParsedVars && st.SetAccountsMeta != nil && forallstr(a, has(st.SetAccountsMeta, a) ==> st.SetAccountsMeta[a] != nil) && forallstr(a, b, has(st.SetAccountsMeta, a) && has(st.SetAccountsMeta, b) && a != b ==> st.SetAccountsMeta[a] != st.SetAccountsMeta[b])
+
+//@ func setTxMeta
+//@   requires [state] metaOk(st)
+//@   ensures [arity] {C12,C17} (err != nil) == (len(args) != 2 || !typeis(args[0], String))
+//@   ensures [typed-error] {C12} err != nil ==> typeis(err, BadArityErr) || typeis(err, TypeError)
+//@   ensures [override-key] {C09} err == nil ==> has(st.TxMeta, as(args[0], String)) && st.TxMeta[as(args[0], String)] == args[1]
+//@   ensures [other-keys] {C09} forallstr(k, (err != nil || k != as(args[0], String)) ==> has(st.TxMeta, k) == old(has(st.TxMeta, k)) && st.TxMeta[k] == old(st.TxMeta[k]))
+//@   modifies entries(st.TxMeta)
+
+//@ func setAccountMeta
+//@   requires [state] metaOk(st)
+//@   requires [args] forall(i, 0, len(args), isValue(args[i]))
+//@   ensures [arity] {C12,C17} (err != nil) == (len(args) != 3 || !typeis(args[0], AccountAddress) || !typeis(args[1], String))
+//@   ensures [typed-error] {C12} err != nil ==> typeis(err, BadArityErr) || typeis(err, TypeError)
+//@   ensures [override-key] {C09} err == nil ==> has(st.SetAccountsMeta, as(args[0], AccountAddress)) && has(st.SetAccountsMeta[as(args[0], AccountAddress)], as(args[1], String))
+//@   ensures [other-accounts] {C09} forallstr(a, k, (err != nil || a != as(args[0], AccountAddress) || k != as(args[1], String)) && old(has(st.SetAccountsMeta, a)) && old(has(st.SetAccountsMeta[a], k)) ==> has(st.SetAccountsMeta, a) && has(st.SetAccountsMeta[a], k) && st.SetAccountsMeta[a][k] == old(st.SetAccountsMeta[a][k]))
+//@   ensures [state-ok] metaOk(st)
+//@   modifies entries(st.SetAccountsMeta), allentries("map[string]string")
+
+//@ func (*programState).evaluateExpressions
+//@   requires [wf] wf(literals)
+//@   requires [state] varsOk(st)
+//@   ensures [values] {C12} err == nil ==> len(result) == len(literals) && forall(i, 0, len(literals), isValue(result[i]) && result[i] == evalOf(st, literals[i]))
+//@   ensures [error] {C12} err != nil ==> exists(i, 0, len(literals), evalErr(st, literals[i]) != nil)
+//@   modifies nothing
+//@   loop 1
+//@     invariant [values] len(values) == iter && forall(j, 0, iter, isValue(values[j]) && values[j] == evalOf(st, literals[j]) && evalErr(st, literals[j]) == nil)
+
+// One statement: the sender / receiver queues are reset first, so nothing but the cached balances
+// and the metadata maps carries over from earlier statements.
+//@ func (*programState).runStatement
+//@   requires [wf] wf(statement)
+//@   requires [state] varsOk(st) && cacheOk(st) && metaOk(st)
+//@   ensures [amount-positive] {C02} err == nil ==> forall(k, 0, len(result), result[k].Amount != nil && val(result[k].Amount) > 0)
+//@   ensures [dest-not-kept] {C02,C05} err == nil ==> forall(k, 0, len(result), result[k].Destination != KEPT_ADDR)
+//@   ensures [no-posting] {C08,C09} err == nil && !typeis(statement, *parser.SendStatement) ==> len(result) == 0
+//@   ensures [unknown-function] {C12,C17} typeis(statement, *parser.FnCall) && as(statement, *parser.FnCall).Caller.Name != "set_tx_meta" && as(statement, *parser.FnCall).Caller.Name != "set_account_meta" ==> err != nil
+//@   ensures [error-no-postings] {C03,C12} err != nil ==> len(result) == 0
+//@   ensures [state-ok] varsOk(st) && cacheOk(st) && metaOk(st)
+//@   modifies st.Senders, st.Receivers, st.CurrentAsset, heap(bigint), entries(st.CachedBalances), allentries("map[string]*math/big.Int"), allelems(Sender), allelems(Receiver), entries(st.TxMeta), entries(st.SetAccountsMeta), allentries("map[string]string")
